@@ -269,7 +269,120 @@ def mapsort : Handler := fun args impl =>
     | _, _ => bad "decode"
   | _ => bad "arity"
 
+/-! ## the seven iterator wrappers of `map.rs` as double-ended exact-size iterators
+
+`mapiter <cfg> <history> <k> => <kind>=<field>/<field>/…|<kind>=…` — the map is built by the history; for each of `iter()`,
+`iter_mut()`, `into_iter()`, `keys()`, `values()`, `values_mut()`, `into_values()` the harness observes, in this order:
+`F` forward collect, `R` `rev()` collect, `nth(k)` + the rest collected, `nth_back(k)` + the rest collected (forward),
+`rev().nth(k)`, `rev().skip(k)` collected, `rev().step_by(2)`, `skip(k)`, `step_by(k+1)`, `rev().step_by(k+1)`,
+`len():size_hint()` fresh / after `next()` / after `next()`+`next_back()` / after `nth(k)` / after `nth_back(k)`, `last()`,
+`next, next_back, next, next_back` + rest, `nth_back(k), nth(k)` + rest + `len()`.
+Items: `hexkey~value`, `hexkey`, `value`; lists joined by `,` (`_` empty); options `N` / `S<item>`.
+
+Everything is a plain list function of the FORWARD entry list `l` (that is the whole specification of a double-ended
+exact-size iterator over `l`): MODEL = these functions of the model map's entries (`Model.MapBTree` / `Model.MapIndex` run on
+the history); SPECIFICATION = the same functions of the list the crate's own `iter()` collected forward (field `F` of the
+first kind), compared with every other field the crate produced — independent of the map models. -/
+
+inductive Proj | kv | key | val
+
+def Proj.item : Proj → Bytes × JV → String
+  | .kv, (k, v) => hexField k ++ "~" ++ encJV v
+  | .key, (k, _) => hexField k
+  | .val, (_, v) => encJV v
+
+def Proj.list (p : Proj) (l : List (Bytes × JV)) : String :=
+  if l.isEmpty then "_" else ",".intercalate (l.map p.item)
+
+def Proj.opt (p : Proj) : Option (Bytes × JV) → String
+  | none => "N"
+  | some x => "S" ++ p.item x
+
+/-- the elements at positions 0, s, 2s, … (`Iterator::step_by`) -/
+def stepBy {α} (s : Nat) (l : List α) : List α :=
+  (l.zipIdx.filter fun x => x.2 % s == 0).map (·.1)
+
+def szStr (n : Nat) : String := s!"{n}:{n}:{n}"
+
+/-- the named fields of one iterator over the forward list `l` -/
+def iterFields (p : Proj) (l : List (Bytes × JV)) (k : Nat) : List (String × String) :=
+  let n := l.length
+  let nth := (l.drop k).head?
+  let afterNth := l.drop (k + 1)
+  let nthBack := (l.reverse.drop k).head?
+  let afterNthBack := l.take (n - (k + 1))
+  -- next, next_back, next, next_back
+  let a := l.head?
+  let l1 := l.tail
+  let b := l1.getLast?
+  let l2 := l1.dropLast
+  let c := l2.head?
+  let l3 := l2.tail
+  let d := l3.getLast?
+  let l4 := l3.dropLast
+  -- nth_back(k) then nth(k)
+  let y := (afterNthBack.drop k).head?
+  let rest2 := afterNthBack.drop (k + 1)
+  [ ("F", p.list l),
+    ("rev", p.list l.reverse),
+    ("nth", p.opt nth ++ "+" ++ p.list afterNth),
+    ("nth_back", p.opt nthBack ++ "+" ++ p.list afterNthBack),
+    ("rev.nth", p.opt nthBack),
+    ("rev.skip", p.list (l.reverse.drop k)),
+    ("rev.step_by(2)", p.list (stepBy 2 l.reverse)),
+    ("skip", p.list (l.drop k)),
+    ("step_by(k+1)", p.list (stepBy (k + 1) l)),
+    ("rev.step_by(k+1)", p.list (stepBy (k + 1) l.reverse)),
+    ("len/size_hint", "+".intercalate [szStr n, szStr (n - 1), szStr (n - 2), szStr (n - (k + 1)), szStr (n - (k + 1))]),
+    ("last", p.opt l.getLast?),
+    ("next/next_back", "+".intercalate [p.opt a, p.opt b, p.opt c, p.opt d, p.list l4]),
+    ("nth_back;nth", "+".intercalate [p.opt nthBack, p.opt y, p.list rest2, toString rest2.length]) ]
+
+def iterKinds : List (String × Proj) :=
+  [("iter", .kv), ("iter_mut", .kv), ("into_iter", .kv), ("keys", .key), ("values", .val), ("values_mut", .val), ("into_values", .val)]
+
+def iterObs (l : List (Bytes × JV)) (k : Nat) : String :=
+  "|".intercalate (iterKinds.map fun (name, p) => name ++ "=" ++ "/".intercalate ((iterFields p l k).map (·.2)))
+
+/-- `hexkey~value,…` (or `_`) back into an entry list -/
+def decEntries (s : String) : Option (List (Bytes × JV)) :=
+  if s == "_" then some [] else
+  (s.splitOn ",").mapM fun it =>
+    match it.splitOn "~" with
+    | [k, v] => do pure (← bytesOfHex k, ← decodeJV v)
+    | _ => none
+
+/-- first field of the crate's observation that differs from the list semantics over `l` -/
+def iterJudge (l : List (Bytes × JV)) (k : Nat) (impl : String) : Option String :=
+  let sections := impl.splitOn "|"
+  if sections.length != iterKinds.length then some "C17 mapiter: malformed observation" else
+  (iterKinds.zip sections).findSome? fun ((name, p), sec) =>
+    if sec == name ++ "=PANIC" then some s!"C17 mapiter: {name}() panics" else
+    let got := ((sec.drop (name.length + 1)).toString).splitOn "/"
+    let want := iterFields p l k
+    if !sec.startsWith (name ++ "=") || got.length != want.length then some s!"C17 mapiter: malformed section of {name}" else
+    (want.zip got).findSome? fun ((fname, w), g) =>
+      if w == g then none
+      else some s!"C17 mapiter: {name}(): {fname} with k={k} gives {g}; a double-ended exact-size iterator over the forward entry list gives {w}"
+
+def mapiter : Handler := fun args impl =>
+  match args with
+  | [cfg, opsTok, kTok] =>
+    match decOps opsTok, kTok.toNat? with
+    | some ops, some k =>
+      let po := cfg == "po"
+      let m := (runModel po (ops.map (resolveAppend po))).1
+      let firstF := (((impl.splitOn "|").headD "").splitOn "/").headD ""
+      let spec :=
+        if !firstF.startsWith "iter=" then some "C17 mapiter: malformed observation"
+        else match decEntries (firstF.drop 5).toString with
+          | none => some "C17 mapiter: undecodable forward list of iter()"
+          | some l => iterJudge l k impl
+      { model := iterObs m k, spec := spec }
+    | _, _ => bad "decode"
+  | _ => bad "arity"
+
 def handlers : List (String × Handler) :=
-  [("maphist", maphist), ("mapeqh", mapeqh), ("mapeq", mapeq), ("maphash", maphash), ("mapsort", mapsort)]
+  [("maphist", maphist), ("mapeqh", mapeqh), ("mapeq", mapeq), ("maphash", maphash), ("mapsort", mapsort), ("mapiter", mapiter)]
 
 end SJ.Drv.C17
